@@ -169,6 +169,21 @@ func cmdCheck(args []string) {
 			viols = append(viols, viol{id: "bounded." + b.Name, what: "bounded stand-in failed (executable check of the real code, bound: " + b.Bound + "): " + b.FirstFailure, bounded: b})
 		}
 	}
+	// syntactic side conditions the contracts of this property rely on
+	var scanEv []interface{}
+	for _, sc := range vc.Scans {
+		if !hasProp(sc.Props, *prop) {
+			continue
+		}
+		finds := sc.Run(w)
+		if finds == nil {
+			finds = []string{}
+		}
+		scanEv = append(scanEv, map[string]interface{}{"name": sc.Name, "condition": sc.Text, "holds": len(finds) == 0, "findings": finds})
+		if len(finds) > 0 {
+			viols = append(viols, viol{id: "scan." + sc.Name, what: "syntactic side condition violated (" + sc.Text + "): " + strings.Join(finds, "; ")})
+		}
+	}
 	if len(obls) == 0 && len(viols) == 0 {
 		// vacuity guard: a property without a single generated obligation is not checked at all
 		fmt.Fprintf(os.Stderr, "property %s: no obligations generated (no contract clause carries this tag)\n", *prop)
@@ -339,6 +354,7 @@ func cmdCheck(args []string) {
 			"rule":             "one SMT query per generated obligation; an obligation is non-trivial when its goal is not syntactically true (all generated obligations are)",
 			"explanation":      explanation,
 			"bounded_standins": boundedEvidence(bounded),
+			"syntactic_scans":  scanEv,
 		},
 		"assumptions": trusted,
 		"wall_s":      round3(time.Since(t0).Seconds()),
